@@ -280,6 +280,13 @@ def partner(q, kind):
                 # avoid NaN codes: roll the float8 values instead of raw bytes
                 data = torch.roll(q._data.contiguous().flatten().to(torch.float32), 1).reshape(q._data.shape).to(q._data.dtype)
             return QBytesTensor(q.qtype, None, data.size(), data.stride(), data, q._scale)
+        if kind == "nearscale":
+            # the same kind of tensor with a scale one or two units in the last place away (e.g. after a x3 / 3 round trip)
+            src = torch.roll(tw.contiguous().flatten(), 2).reshape(tw.shape) * 0.75
+            near = (q._scale.to(torch.float64) * (1.0 + 3.0 * _u(q._scale.dtype))).to(q._scale.dtype)
+            if bool(near == q._scale):
+                return None
+            return quantize_activation(src, q.qtype, near)
         if kind == "diffscale":
             src = torch.roll(tw.contiguous().flatten(), 2).reshape(tw.shape) * 0.75
             return quantize_activation(src, q.qtype, (q._scale * 1.5).to(q._scale.dtype))
@@ -290,7 +297,7 @@ def partner(q, kind):
     if isinstance(q, QBytesTensor) and kind == "pertensor" and q.axis is not None:
         sc = q._scale.flatten()[0].clone()
         return QBytesTensor(q.qtype, None, q._data.size(), q._data.stride(), torch.roll(q._data.flatten(), 1).reshape(q._data.shape).contiguous(), sc)
-    if kind in ("same", "diffscale", "otherdtype", "pertensor"):
+    if kind in ("same", "diffscale", "nearscale", "otherdtype", "pertensor"):
         return None
     raise ValueError(kind)
 
@@ -360,7 +367,7 @@ def events(q, tier="quick"):
         ev.append(("squeeze",))
     # deepcopy is a life-cycle step judged by C09 (copying a frozen model), not a dispatched tensor operation
     ev += [("contiguous",), ("flatten",), ("clone",), ("detach",), ("to_cpu",), ("data",), ("param",), ("sd_roundtrip",), ("to_meta",)]
-    for pk in ("same", "diffscale", "plain"):
+    for pk in ("same", "diffscale", "plain", "nearscale"):
         for dim in sorted({0, r - 1}):
             ev.append(("cat", pk, dim))
         ev.append(("stack", pk, 0))
